@@ -159,7 +159,7 @@ func init() {
 			{Name: "prefixes", Run: prefixUnit("sam", false, 0)},
 			{Name: "edges", Run: edgeUnit("sam")},
 			{Name: "fieldlens", TShards: 4, Run: lengthUnit("sam")},
-			{Name: "parallel", Race: true, Run: codecParallel("sam")},
+			{Name: "parallel", Race: true, Run: codecParallel("sam", "samh")},
 		},
 	})
 }
